@@ -11,8 +11,8 @@ import (
 
 func init() {
 	register(&core.Property{
-		ID:    "C04",
-		Title: "Path precedence in generated maps: exact first, then longest declared path",
+		ID:          "C04",
+		Title:       "Path precedence in generated maps: exact first, then longest declared path",
 		Explanation: "Static decision of the ordering tables the precedence argument rests on: (1) the complete decision table of overlaps(); (2) the comparators of the three per-file sorts and of the per-host pre-sort, which touch their operands only through ==, < and >, so their table over the orderings is finite: inside a host longer paths come first; (3) the map key joins non-empty host and path with `#`; (4) the key and the entry's path used for sorting and overlap detection are the same (lower-cased for begin) value; (5) exact files go first, files with header filters before everything; (6) whenever two entries of a host overlap (or differ in filters) the shorter one records the longer one's file as its upper bound — whether that file was just created or already existed.",
 		NotDecided: []string{
 			"correctness of the overlap-splitting algorithm (`_upper`/`_elem` bookkeeping) over all rule sets: a wrong algorithm with right tables passes",
